@@ -2,6 +2,7 @@ package main
 
 import (
 	"verif/core"
+	_ "verif/props/c01"
 	_ "verif/props/listops"
 )
 
